@@ -192,7 +192,7 @@ func tokNetClass(m string) string {
 	case strings.Contains(m, "EOF"), strings.Contains(m, "closed"):
 		return "eof"
 	}
-	return "other:" + strings.ReplaceAll(m, " ", "_")
+	return "other" // unknown wording: one class, the text is not compared
 }
 
 func tokRejClass(m string) string {
@@ -232,6 +232,8 @@ func tokRejClass(m string) string {
 		return "tooOld"
 	case has("not a valid timestamp"):
 		return "badTime"
+	case has("is not valid before"):
+		return "notYet"
 	case has("subject claim is not a string"):
 		return "subType"
 	case has("missing required subject"):
@@ -245,7 +247,52 @@ func tokRejClass(m string) string {
 	case has("failed to load token"):
 		return "load"
 	}
-	return "other:" + strings.ReplaceAll(m, " ", "_")
+	return "other" // unknown wording: one class, the text is not compared
+}
+
+// tokTol: what may differ between implementation and model without breaking the correspondence.
+//   - an error whose wording the harness does not know (class `other`) stands for any class of the
+//     same kind (auth / net / abort): wording is part of no property;
+//   - where a case deviates in SEVERAL places at once (pairs of deviations, malformed streams, the
+//     refused-message-1 family) the class of a rejection may differ: which of several failing,
+//     independent checks is reported first is part of no property.
+// Accept vs reject, abort vs completed exchange, the recorded identity and every byte of the
+// messages the implementation sends remain compared exactly.
+func tokTol(cs Case, real, model string) string {
+	ra, mb := strings.Fields(real), strings.Fields(model)
+	if len(ra) != len(mb) {
+		return ""
+	}
+	multi := strings.Contains(cs.Label, "pair") || strings.Contains(cs.Label, "malformed-stream") || strings.Contains(cs.Label, "refused-m1")
+	kind := func(t string) (string, string, bool) {
+		for _, p := range []string{"auth:", "net:"} {
+			if strings.HasPrefix(t, p) {
+				return p, t[len(p):], true
+			}
+		}
+		return "", "", false
+	}
+	label := ""
+	for i := range ra {
+		if ra[i] == mb[i] {
+			continue
+		}
+		pk, pc, ok1 := kind(ra[i])
+		mk, _, ok2 := kind(mb[i])
+		switch {
+		case ok1 && ok2 && pk == mk && pc == "other":
+			label = "unclassified-error-text-accepted-as-error"
+		case ok1 && ok2 && pk == mk && pk == "auth:" && multi && i > 0 && ra[i-1] == "reject":
+			if label == "" {
+				label = "check-order-differs-in-multi-deviation-case"
+			}
+		case i > 0 && (ra[i-1] == "abort" || ra[i-1] == "reject") && mb[i-1] == ra[i-1] && ra[i] == "other":
+			label = "unclassified-error-text-accepted-as-error"
+		default:
+			return ""
+		}
+	}
+	return label
 }
 
 func tokVerdict(err error, user string) string {
@@ -520,6 +567,9 @@ func (w *tokWorld) serverCase(cfg *security.SecurityConfig, k *srvCase) Case {
 	c := w.c
 	w.describeToken(k.hp, false)
 	res := w.runServer(cfg, k)
+	if res.m2.ok && res.m2.status == 0 {
+		tokNonces.note(c, "RB", res.m2.rb, "server case "+k.label, w.ops)
+	}
 	// the server's own proof, as the protocol defines it, so that it can be named if it appears
 	cv := viewClaims(segOf(k.hp, 1))
 	if res.m2.ok && res.m2.status == 0 {
@@ -688,6 +738,8 @@ func runOneServer(c *Ctx, m *tokMat, d srvDev, extra func(g *tgen, k *srvCase)) 
 func runToken(c *Ctx) error {
 	c.Res.Rule = "real token server vs scripted client, real token client vs scripted server (security.PerformTokenAuthenticationDemo over a single-threaded in-memory connection; real keys through an in-memory CredentialReader; tokens minted relative to the wall clock) and security.VerifyIDToken: a valid exchange/token and ONE deviation from it per case (catalogue = the labels of the distribution: token bit flips incl. every bit of short tokens, other/unknown/unreadable/path-like keys, kid forms, exp/iat at and around the boundary, max-age sources, announced id vs sub, wrong/truncated/empty/reflected/mis-keyed proofs, nonce echoes, status codes, trailing bytes, missing EOM, truncation, frame cuts), a refused message 1 followed by the publicly computable proof, random pairs of deviations, malformed byte streams and random field sequences; distinct by label+token+verdict; every case is non-trivial (a full exchange or verification)"
 	m := newTokMat(c)
+	tokNonces.reset()
+	tokenFreshness(c, m)
 	var cases []Case
 	devs := serverDeviations()
 	rounds := c.Pick(12, 150)
@@ -874,7 +926,7 @@ func runToken(c *Ctx) error {
 			cases = append(cases, runOneVerifyFixed(c, m, d, probe))
 		}
 	}
-	return diffBatch(c, "token", cases, nil)
+	return diffBatchTol(c, "token", cases, nil, tokTol)
 }
 
 // ---- running the real client against a scripted server -------------------------------------------
@@ -1017,6 +1069,9 @@ func (w *tokWorld) clientCase(k *cliCase) Case {
 	}
 	w.describeToken(k.tokenStr, true)
 	res := w.runClient(k)
+	if res.m1 != nil && res.m1.ok && res.m1.status == 0 {
+		tokNonces.note(c, "RA", res.m1.ra, "client case "+k.label, w.ops)
+	}
 	if p := strings.Split(k.tokenStr, "."); len(p) == 3 && res.m2 != nil {
 		// the proof the protocol expects in message 2 under the client's own signature
 		if m2 := parseM2raw(res.m2.payload); m2 != nil {
